@@ -72,8 +72,8 @@ def OR(
 @xl.validate_args
 def IF(
         logical_test: func_xltypes.XlExpr,
-        value_if_true: func_xltypes.XlExpr = True,
-        value_if_false: func_xltypes.XlExpr = False
+        value_if_true: func_xltypes.XlExpr = func_xltypes.ValueExpr(True),
+        value_if_false: func_xltypes.XlExpr = func_xltypes.ValueExpr(False)
 ):
     """Return one value if a condition is true and another value if it's false.
 
